@@ -17,7 +17,7 @@
 (* Tokens are uniform records [t, s, n, k]:                                *)
 (*   var   s = kind ("v" plain, "p" {parameter}, "e" <error>), n = name id,*)
 (*         k = time offset, or Named for a quoted period label             *)
-(*   num   s = the literal as written                                      *)
+(*   num   s = the literal as written;   verb  s = verbatim Python text    *)
 (*   neg | paren | cond            (unary minus, explicit ( ), a if c else b) *)
 (*   bin | cmp | bool  s = operator (bool: and / or);  not;                *)
 (*   call  s = function, n = arity                                         *)
@@ -29,6 +29,7 @@ CONSTANTS MaxStmts, MaxLeaves, MaxNodes, MaxNames,
           Idxs,       \* offsets a right-hand-side term may carry (may include Named)
           LhsIdxs,    \* offsets a left-hand side may carry
           Nums,       \* numeric literals (strings)
+          Verbs,      \* verbatim fragments (Python text written between backticks, copied into the code untouched)
           BinOps, CmpOps, BoolOps, Funcs1, Funcs2,
           UseNeg, UseParen, UseCond, UseNot,
           NoReject    \* TRUE: only build programs the parser must accept (no kind clash, no second definition)
@@ -113,7 +114,13 @@ Finish ==
   /\ UNCHANGED <<stmts, stack, leaves, nodes, used, kinds>>
 
 DoPushVar == \E kd \in Kinds, nm \in 1..MaxNames, ix \in Idxs : PushVar(kd, nm, ix)
-DoPushNum == \E l \in Nums : PushNum(l)
+PushVerb(txt) ==
+  /\ Building /\ leaves < MaxLeaves /\ nodes + 1 + Len(stack) <= MaxNodes
+  /\ stack' = Append(stack, <<Tok("verb", txt, 0, 0)>>)
+  /\ leaves' = leaves + 1 /\ nodes' = nodes + 1
+  /\ UNCHANGED <<stmts, used, kinds, terms, nameseq, phase>>
+
+DoPushNum == (\E l \in Nums : PushNum(l)) \/ (\E v \in Verbs : PushVerb(v))
 DoUnary   == \/ (UseNeg /\ Unary(Tok("neg", "", 0, 0)))
              \/ (UseParen /\ Unary(Tok("paren", "", 0, 0)))
              \/ (UseNot /\ Unary(Tok("not", "", 0, 0)))
